@@ -36,8 +36,14 @@ def pooled_combinators(job):
         opt._mode, opt._workers = ModeSolver(m), workers
         opt._population = [make_agent(i, c) for i, c in enumerate(old)]
         pool.POOL_LOG.clear()
-        with pool.permuted_pool(job["seed"]):
-            opt._greedy_select_population([make_agent(100 + i, c) for i, c in enumerate(new)])
+        try:
+            with pool.permuted_pool(job["seed"]):
+                opt._greedy_select_population([make_agent(100 + i, c) for i, c in enumerate(new)])
+        except IndexError:
+            raise
+        except Exception as e:  # noqa — the combinator cannot be driven outside optimize() any more (a refactor of the pooled branch): the probe cannot vouch for it
+            out["probe_broken"] = f"_greedy_select_population({m}): {type(e).__name__}: {e}"
+            return out
         res[m] = sorted((int(a.position[0]), bits(a.cost)) for a in opt._population)
         if m != "serial":
             out["greedy_log"] = list(pool.POOL_LOG)
@@ -82,7 +88,7 @@ def run(ctx):
     ctx.suites_run.append("S-pool")
     rng = ctx.rng
     ctx.rule("pooled combinators (_greedy_select_population, _generate_agents) on a scripted optimizer under seeded permutations of the completion order × workers {1,2,3,4,8,16} × thread/process (every pair covered), two consecutive pooled rounds of _generate_agents compared with the same two serial rounds; "
-             "full runs of real optimizers in thread/process mode with permuted and with real completion order, half of the thread runs with injected per-evaluation delays (overlapping evaluations): all C01/C02/C03/C10 oracles, multiset of initial positions pairwise distinct, one agent per pooled evaluation; "
+             "full runs of real optimizers in thread/process mode with permuted and with real completion order, half of the thread runs with injected per-evaluation delays (overlapping evaluations), a fifth on an instance that has just solved another task in the same pooled mode: all C01/C02/C03/C10 oracles, multiset of initial positions pairwise distinct, one agent per pooled evaluation; "
              "a case = one pooled call or run; non-trivial = ≥ 2 workers and ≥ 2 pooled evaluations")
     # ---- pooled combinators under permutations
     cj = []
@@ -96,6 +102,11 @@ def run(ctx):
     req, meta = [], []
     for r in pmap(pooled_combinators, cj):
         j = r["job"]
+        if "probe_broken" in r:
+            # model ↔ implementation can no longer be compared on the bare combinator: a correspondence break, not by itself a violation
+            ctx.case(("greedy-probe-broken", repr(j)), nontrivial=False, kind="probe-broken")
+            ctx.disagree("S-pool", {"job": j}, "pooled combinator callable on a configured instance (as at the pinned tree)", r["probe_broken"])
+            continue
         ctx.case(("greedy", repr(j)), nontrivial=j["workers"] >= 2 and j["n"] >= 2, kind=f"greedy:{j['mode']}:w{j['workers']}")
         if r["greedy"]["serial"] != r["greedy"][j["mode"]]:
             ctx.fail("C11/_greedy_select_population/pooled-outcome-not-a-permutation-of-serial", f"{r['greedy']}", "S-pool", {"job": j})
@@ -133,6 +144,15 @@ def run(ctx):
         j["pool_perm"] = rng.choice([None, rng.randrange(10 ** 6), rng.randrange(10 ** 6)])
         if j["mode"] == "thread" and rng.random() < 0.5:
             j["delay"] = rng.choice([0.0005, 0.002])       # injected per-evaluation delay (seconds, jittered): evaluations overlap in time
+    # a fifth of the pooled runs use an instance that has just solved ANOTHER task (other objective, shifted bounds) in the same pooled mode:
+    # whatever the workers are handed must belong to the run in progress
+    for j in rng.sample(js, len(js) // 5):
+        if len(j["specs"]) == 1 and j["specs"][0].get("k") == "contMulti" and j.get("pool_perm") is None:
+            sp = j["specs"][0]
+            w = [ub - lb for lb, ub in zip(sp["lbs"], sp["ubs"])]
+            j["warmup"] = {"specs": [{"k": "contMulti", "lbs": [ub + 2 * d for ub, d in zip(sp["ubs"], w)], "ubs": [ub + 3 * d for ub, d in zip(sp["ubs"], w)]}],
+                           "objective": "linear" if j["objective"] != "linear" else "sphere"}
+            j["kind"] = j["kind"] + "+reused-instance"
     own_init = {a["cls"] for a in getattr(ctx, "facts", {}).get("algos", []) if "_init_population" in a.get("overrides", []) and a["cls"] != "BeeColonyOptimization"}
     results = pmap(trace.run_traced, js, jobs=8)
     for r in results:
@@ -161,6 +181,9 @@ def replay(case):
     c = case["case"]
     if "n" in c.get("job", {}):
         r = pooled_combinators(c["job"])
+        if "probe_broken" in r:
+            print(json.dumps({"job": c["job"], "probe_broken": r["probe_broken"]}, indent=1))
+            return 1
         ok = r["greedy"]["serial"] == r["greedy"][c["job"]["mode"]]
         print(json.dumps({"job": c["job"], "pooled_equals_serial_as_multiset": ok}, indent=1))
         return 0 if ok else 1
